@@ -1341,6 +1341,29 @@ def _chain_open(tr: Tr, cls, side: dict) -> None:
     side['chain_open'] = 'open_bin/open_str(name) = self._get_file(name).open_*()'
 
 
+def _mounted_test(t, pair: str) -> bool:
+    """The test says that the pair (sys, prefix) is already among self.systems."""
+    if isinstance(t, ast.Compare) and len(t.ops) == 1 and isinstance(t.ops[0], ast.In) \
+            and ast.unparse(t.left) == pair and _dotted(t.comparators[0]) == 'self.systems':
+        return True
+    if isinstance(t, ast.Call) and _dotted(t.func) == 'self.systems.count' and len(t.args) == 1 and not t.keywords \
+            and ast.unparse(t.args[0]) == pair:
+        return True       # truth value of count(...)
+    if isinstance(t, ast.Compare) and len(t.ops) == 1 and isinstance(t.left, ast.Call) and _dotted(t.left.func) == 'self.systems.count' \
+            and len(t.left.args) == 1 and ast.unparse(t.left.args[0]) == pair and isinstance(t.comparators[0], ast.Constant):
+        c = t.comparators[0].value
+        return (isinstance(t.ops[0], (ast.Gt, ast.NotEq)) and c == 0) or (isinstance(t.ops[0], ast.GtE) and c == 1)
+    if isinstance(t, ast.Call) and _name(t.func) == 'any' and len(t.args) == 1 and isinstance(t.args[0], (ast.GeneratorExp, ast.ListComp)) \
+            and len(t.args[0].generators) == 1 and _dotted(t.args[0].generators[0].iter) == 'self.systems' \
+            and not t.args[0].generators[0].ifs and isinstance(t.args[0].elt, ast.Compare) and len(t.args[0].elt.ops) == 1 \
+            and isinstance(t.args[0].elt.ops[0], ast.Eq):
+        e = t.args[0].elt
+        v = ast.unparse(t.args[0].generators[0].target)
+        sides = {ast.unparse(e.left), ast.unparse(e.comparators[0])}
+        return sides == {v, pair} or sides == {f'({v})', pair}
+    return False
+
+
 def _chain(tr: Tr, side: dict) -> list[str]:
     cls = tr.classes.get('FileSystemChain')
     if cls is None:
@@ -1368,6 +1391,24 @@ def _chain(tr: Tr, side: dict) -> list[str]:
         tr.err(fn, 'add_sys: unrecognised signature')
     pair = f'({aps[0]}, {aps[1]})'
     prio = [a.arg for a in fn.args.kwonlyargs] + aps[2:]
+    # may the method return before it inserts?  `if <(sys, prefix) is among self.systems>: return` in front of the
+    # insertion (the membership test uses FileSystem.__eq__: type and path label) -> AddSkipMounted; any other
+    # condition under which nothing is inserted fails closed
+    guard = 'AddAlways'
+    if len(stmts) == 1 and isinstance(stmts[0], ast.If) and not stmts[0].body and stmts[0].orelse:
+        if not _mounted_test(stmts[0].test, pair):
+            tr.err(stmts[0], 'add_sys: returns without inserting under an unrecognised condition '
+                             f'{ast.unparse(stmts[0].test)[:80]}')
+        guard = 'AddSkipMounted'
+        stmts = stmts[0].orelse
+    elif len(stmts) == 1 and isinstance(stmts[0], ast.If) and not stmts[0].orelse and _mounted_test(_negate(stmts[0].test), pair):
+        # `if (sys, prefix) not in self.systems: <insert>`
+        guard = 'AddSkipMounted'
+        stmts = stmts[0].body
+    if len(stmts) == 1 and isinstance(stmts[0], ast.If) and isinstance(stmts[0].test, ast.UnaryOp) \
+            and isinstance(stmts[0].test.op, ast.Not) and stmts[0].body and stmts[0].orelse:
+        # `if not flag: A else: B`  ->  `if flag: B else: A`
+        stmts = [ast.copy_location(ast.If(test=stmts[0].test.operand, body=stmts[0].orelse, orelse=stmts[0].body), stmts[0])]
     ok = (len(stmts) == 1 and isinstance(stmts[0], ast.If) and _name(stmts[0].test) in prio
           and len(stmts[0].body) == 1 and len(stmts[0].orelse) == 1)
     if not ok:
@@ -1392,7 +1433,8 @@ def _chain(tr: Tr, side: dict) -> list[str]:
     na, na_s = action(stmts[0].orelse[0])
     out.append(f'Definition chain_prio_action : ins_action := {pa}.')
     out.append(f'Definition chain_plain_action : ins_action := {na}.')
-    side['chain_add_sys'] = {'priority': pa_s, 'plain': na_s}
+    out.append(f'Definition chain_add_guard : add_guard := {guard}.')
+    side['chain_add_sys'] = {'priority': pa_s, 'plain': na_s, 'guard': guard}
 
     # _get_file
     fn = normalise(tr, cls, tr.method(cls, '_get_file'))
@@ -1931,9 +1973,12 @@ def _vpk_reader(side: dict) -> list[str]:
     return [f'Definition vpk_reader : rexpr := {e}.']
 
 
-def _raw_walk_shape(tr: Tr, cls) -> None:
-    """RawFileSystem.walk_folder: `for D, _, FS in os.walk(self._resolve_path(...)): for F in FS: yield File(self, R, R)` with
-    R = os.path.relpath(os.path.join(D, F), self.path).replace('\\', '/'), whatever the locals are called."""
+def _raw_walk_shape(tr: Tr, cls) -> str:
+    """RawFileSystem.walk_folder: `for D, _, FS in os.walk(self._resolve_path(...)): for F in FS: yield File(self, R, R)`,
+    whatever the locals are called and wherever they are assigned.  How R is computed is returned:
+    RawRelFile     R = os.path.relpath(os.path.join(D, F), self.path).replace('\\', '/')
+    RawRelDirJoin  R = <relpath(D, self.path), slashes converted> + '/' + F  (written with +, an f-string or os.path.join):
+                   the relative path of the walked root itself is '.', so its files are listed as './name'."""
     import copy
     fn = normalise(tr, cls, tr.method(cls, 'walk_folder'))
     env: dict = {}
@@ -1956,11 +2001,20 @@ def _raw_walk_shape(tr: Tr, cls) -> None:
     if not (isinstance(t, ast.Tuple) and len(t.elts) == 3 and all(isinstance(x, ast.Name) for x in t.elts)):
         tr.err(outer, 'RawFileSystem.walk_folder: os.walk loop target is not (dirpath, dirnames, filenames)')
     D, FS = t.elts[0].id, t.elts[2].id
-    if len(outer.body) != 1 or not isinstance(outer.body[0], ast.For) or outer.body[0].orelse \
-            or _name(outer.body[0].iter) != FS or not isinstance(outer.body[0].target, ast.Name):
+    obody = list(outer.body)
+    while obody and isinstance(obody[0], (ast.Assign, ast.AnnAssign)):      # per-directory locals
+        st = obody.pop(0)
+        tgt = st.targets[0] if isinstance(st, ast.Assign) and len(st.targets) == 1 else getattr(st, 'target', None)
+        if not isinstance(tgt, ast.Name) or st.value is None or tgt.id in (D, FS) or not all(
+                not isinstance(n, ast.Call) or _dotted(n.func) in PURE_FUNCS | {'os.path.relpath'}
+                or (isinstance(n.func, ast.Attribute) and n.func.attr in PURE_METHODS) for n in ast.walk(st.value)):
+            tr.err(st, 'RawFileSystem.walk_folder: unrecognised assignment')
+        env[tgt.id] = sub(st.value)
+    if len(obody) != 1 or not isinstance(obody[0], ast.For) or obody[0].orelse \
+            or _name(obody[0].iter) != FS or not isinstance(obody[0].target, ast.Name):
         tr.err(outer, 'RawFileSystem.walk_folder: inner loop is not `for file in filenames`')
-    F = outer.body[0].target.id
-    inner = list(outer.body[0].body)
+    F = obody[0].target.id
+    inner = list(obody[0].body)
     while inner and isinstance(inner[0], (ast.Assign, ast.AnnAssign)):
         st = inner.pop(0)
         tgt = st.targets[0] if isinstance(st, ast.Assign) and len(st.targets) == 1 else getattr(st, 'target', None)
@@ -1968,13 +2022,22 @@ def _raw_walk_shape(tr: Tr, cls) -> None:
             tr.err(st, 'RawFileSystem.walk_folder: unrecognised assignment')
         env[tgt.id] = sub(st.value)
     want = f"os.path.relpath(os.path.join({D}, {F}), self.path).replace('\\\\', '/')"
+    rd = f"os.path.relpath({D}, self.path)"
+    rds = rd + ".replace('\\\\', '/')"
+    dirjoin = {f"{rds} + '/' + {F}", f"({rd} + '/' + {F}).replace('\\\\', '/')", f"os.path.join({rd}, {F}).replace('\\\\', '/')",
+               f"os.path.join({rds}, {F})", f"os.path.join({rds}, {F}).replace('\\\\', '/')"}
     ok = (len(inner) == 1 and isinstance(inner[0], ast.Expr) and isinstance(inner[0].value, ast.Yield)
           and isinstance(inner[0].value.value, ast.Call) and _name(inner[0].value.value.func) == 'File'
           and len(inner[0].value.value.args) == 3 and not inner[0].value.value.keywords
-          and _name(inner[0].value.value.args[0]) == 'self'
-          and ast.unparse(sub(inner[0].value.value.args[1])) == want and ast.unparse(sub(inner[0].value.value.args[2])) == want)
+          and _name(inner[0].value.value.args[0]) == 'self')
     if not ok:
         tr.err(outer, f'RawFileSystem.walk_folder: does not yield File(self, R, R) with R = {want}')
+    r1, r2 = (ast.unparse(_FStrConcat().visit(sub(a))) for a in inner[0].value.value.args[1:3])
+    if r1 == want and r2 == want:
+        return 'RawRelFile'
+    if r1 == r2 and r1 in dirjoin:
+        return 'RawRelDirJoin'
+    tr.err(outer, f'RawFileSystem.walk_folder: does not yield File(self, R, R) with R = {want} (found {r1[:100]})')
 
 
 def _raw(tr: Tr, side: dict) -> list[str]:
@@ -2034,14 +2097,15 @@ def _raw(tr: Tr, side: dict) -> list[str]:
     if ostr != o:
         tr.err(cls, f'RawFileSystem: open_str and open_bin normalise differently: {ostr} vs {o}')
     w = resolve_ops('walk_folder', 'folder', 'os.walk')
-    _raw_walk_shape(tr, cls)
-    side['raw'] = {'get': g, 'exists': e, 'open': o, 'walk_folder': w,
+    rel = _raw_walk_shape(tr, cls)
+    side['raw'] = {'get': g, 'exists': e, 'open': o, 'walk_folder': w, 'walk_listed_name': rel,
                    'os': 'os.path.isfile / open / os.walk on self._resolve_path(...); listed names relative to self.path'}
     return ['Definition raw_is_os_exact : bool := true.',
             f'Definition raw_get_ops : list sop := {_coq_ops(g)}.',
             f'Definition raw_exists_ops : list sop := {_coq_ops(e)}.',
             f'Definition raw_open_ops : list sop := {_coq_ops(o)}.',
-            f'Definition raw_walk_ops : list sop := {_coq_ops(w)}.']
+            f'Definition raw_walk_ops : list sop := {_coq_ops(w)}.',
+            f'Definition raw_walk_relmode : raw_rel := {rel}.']
 
 
 def translate() -> tuple[str, dict]:
@@ -2049,7 +2113,7 @@ def translate() -> tuple[str, dict]:
     tr = Tr(tree, 'filesys.py')
     side: dict = {'backends': {}}
     lines = ['(* generated by translate/c19_walk.py from src/srctools/filesys.py - do not edit *)',
-             'From Coq Require Import List NArith ZArith.', 'From SV Require Import SM.FsChain SM.FsChainForms SM.FsChainRead.', 'Import ListNotations.', '']
+             'From Coq Require Import List NArith ZArith.', 'From SV Require Import SM.FsChain SM.FsChainForms SM.FsChainRead SM.FsChainAdd.', 'Import ListNotations.', '']
     for cname, dattr in DICTS.items():
         cls = tr.classes.get(cname)
         if cls is None:
